@@ -38,8 +38,8 @@ for seed, pid, tier, only in PLAN:
     if want and seed not in want:
         continue
     patch = os.path.join(ROOT, "seeded", seed, "patch.diff")
-    assert subprocess.run(["git", "-C", "/repo", "status", "--porcelain", "--untracked-files=no"], capture_output=True, text=True).stdout.strip() == "", "/repo not clean"
-    subprocess.run(["git", "-C", "/repo", "apply", patch], check=True)
+    assert subprocess.run(["git", "-C", os.environ.get("SEED_REPO", "/repo"), "status", "--porcelain", "--untracked-files=no"], capture_output=True, text=True).stdout.strip() == "", "/repo not clean"
+    subprocess.run(["git", "-C", os.environ.get("SEED_REPO", "/repo"), "apply", patch], check=True)
     t0 = time.time()
     cmd = ["./check", pid, "--tier", tier] + (["--only", only] if only else [])
     try:
@@ -48,11 +48,11 @@ for seed, pid, tier, only in PLAN:
     except subprocess.TimeoutExpired as e:
         out, rc = (e.stdout or b"").decode(errors="replace") if isinstance(e.stdout, bytes) else (e.stdout or ""), "timeout"
     finally:
-        subprocess.run(["git", "-C", "/repo", "checkout", "--", "."], check=True)
+        subprocess.run(["git", "-C", os.environ.get("SEED_REPO", "/repo"), "checkout", "--", "."], check=True)
     viol = [l for l in out.split("\n") if l.startswith("VIOLATION")]
     inc = [l for l in out.split("\n") if l.startswith("INCONCLUSIVE")]
     res[seed] = {"check": " ".join(cmd), "exit": rc, "wall_s": round(time.time() - t0), "violation_lines": viol[:3], "inconclusive_lines": inc[:3],
-                 "detected": rc == 1 and bool(viol)}
+                 "detected": rc == 1 and bool(viol), "tail": out.strip().split("\n")[-4:] if not viol else []}
     json.dump(res, open(resf, "w"), indent=1)
     print(seed, res[seed]["detected"], rc, res[seed]["wall_s"], flush=True)
 # evidence files were rewritten by the mutated runs: they must be regenerated on the clean tree
